@@ -153,15 +153,17 @@ KINDS = ('float64', 'object', 'M8[D]', 'int64', 'bool', '<U2', 'float32')
 
 @st.composite
 def random_cases(draw):
+    # decisive choices first (Hypothesis pins late draws to their first option for a share of its examples)
     target = draw(st.sampled_from(['frame', 'frame', 'series']))
     op = draw(st.sampled_from(['isna', 'dropna', 'fillna_el', 'fillna_container', 'fillna_sided', 'count', 'fill_dir_series']))
+    ch = {'axis': draw(st.integers(0, 1)), 'cond': draw(st.sampled_from(['all', 'any'])),
+          'fill': draw(st.sampled_from([0, -1.5, 'ff', True, None])), 'keep': draw(st.integers(0, 2 ** 12)), 'sided': draw(st.sampled_from(['leading', 'trailing'])),
+          'limit': draw(st.integers(0, 3)), 'forward': draw(st.booleans()), 'skipna': draw(st.booleans())}
     if target == 'frame':
         rec = draw(gen.frame_recipe(min_rows=0, max_rows=5, min_cols=0, max_cols=5, kinds=KINDS, index_kinds=('auto', 'int', 'str'), column_kinds=('auto', 'str', 'int')))
     else:
         rec = draw(gen.series_recipe(max_size=7, kinds=KINDS, index_kinds=('auto', 'int', 'str')))
-    return {'target': target, 'op': op, 'rec': rec, 'axis': draw(st.integers(0, 1)), 'cond': draw(st.sampled_from(['all', 'any'])),
-            'fill': draw(st.sampled_from([0, -1.5, 'ff', True, None])), 'keep': draw(st.integers(0, 2 ** 12)), 'sided': draw(st.sampled_from(['leading', 'trailing'])),
-            'limit': draw(st.integers(0, 3)), 'forward': draw(st.booleans()), 'skipna': draw(st.booleans())}
+    return dict({'target': target, 'op': op, 'rec': rec}, **ch)
 
 
 def check_random(case):
@@ -340,6 +342,6 @@ def tag(case, f):
 SUBS = [
     Sub('directional', None, check_directional, quick=0, thorough=0, tag=tag, enum=enum_directional,
         rule='complete enumeration of missing patterns; directional fills vs single-scan reference'),
-    Sub('random', random_cases(), check_random, quick=2000, thorough=64000, tag=tag,
+    Sub('random', random_cases(), check_random, quick=8000, thorough=64000, tag=tag,
         rule='isna/notna/dropna/fillna/fillna_sided/count vs cell-wise reference'),
 ]
